@@ -421,6 +421,35 @@ bool prop(Tape &t, Report &R) {
     }
     gSched.reset(kFree, {});
   }
+  // object history: the same Circuit object is placed, then brought through the public setters to
+  // the contents of a variant of the case (fixed cells moved / re-oriented, start positions reset),
+  // and placed again: the result must equal that of a freshly built circuit with those contents
+  if (t.flip(1, 2)) {
+    CircuitSpec s2 = s;
+    bool movedFixed = false;
+    for (auto &c2 : s2.cells)
+      if (c2.fixed) {
+        c2.x += (int)t.range(-2 * s.rowHeight, 2 * s.rowHeight);
+        c2.y += (int)t.range(-2, 2) * s.rowHeight;
+        movedFixed = true;
+      }
+    if (stage != kGlobal || unanchoredComponents(s2).empty()) {
+      Circuit fresh = s2.build();
+      RunOut rf = runOnce(fresh, stage, params, false);
+      Circuit hist = s.build();
+      (void)runStage(hist, stage, params);
+      std::vector<int> xs, ys;
+      std::vector<CellOrientation> os;
+      for (auto &c2 : s2.cells) xs.push_back(c2.x), ys.push_back(c2.y), os.push_back((CellOrientation)c2.orient);
+      hist.setCellX(xs);
+      hist.setCellY(ys);
+      hist.setCellOrientation(os);
+      RunOut rh = runOnce(hist, stage, params, false);
+      R.classify(movedFixed ? "object-history:fixed-cells-moved-between-runs" : "object-history:no-fixed-cell");
+      if (!same(rf, rh))
+        return R.fail(std::string(stageName(stage)) + " on a circuit object that was placed before and then modified through its setters differs from the same contents built fresh: " + firstDiff(rf, rh) + " " + s2.json());
+    }
+  }
   // one CPU vs all CPUs
   {
     cpu_set_t all, one;
